@@ -2,6 +2,7 @@
 them, which Lean module/theorems carry the proof."""
 import json
 
+TRIVIAL_TAGS = {'awsop:increase:rejected', 'awsop:delete:refused', 'arith:err', 'taintop:time:none'}
 TRIVIAL_BRANCHES = {'empty', 'below-min-count', 'above-max-count', 'pct-err'}
 
 TRUSTED_BASE = [
@@ -33,7 +34,7 @@ def hist(prop, focus=None, q=400, t=20000, s=1500):
 
 
 HOOK_COMMITS = ['8b60f71']
-FIX_COMMITS = ['4e44fa6 (C04)', '1c752d6 (C02)', '0ec6acc (C18)', 'a3c0a98 (C20)', 'be6e20c (C16)', '839495b (C07)']
+FIX_COMMITS = ['9968ae8 (C19)', '4e44fa6 (C04)', '1c752d6 (C02)', '0ec6acc (C18)', 'a3c0a98 (C20)', 'be6e20c (C16)', '839495b (C07)']
 NOT_YET = {}
 
 LEVEL_NOTE = ('Trusted: Lean kernel + axioms propext/Classical.choice/Quot.sound; the hand-written model (lean/Esc) and the '
@@ -88,6 +89,39 @@ PROPS = {
                 technique='Lean 4 theorem (journal anatomy: with either dry switch every entry is a read) + differential correspondence and runtime monitor',
                 level_text='C11_scan / C11_history: with the global flag or the group option set, the group scan journal contains no write, for every state/view/environment and every history. '
                            'Scope: scans (RunOnce); the one-off ASG tag write at provider construction is outside. Isolation of other groups is C12. Tie: hist (dry-focused) on writes of dry groups + monitor.',
+                level_note=LEVEL_NOTE),
+    'C17': dict(level='proof', module='EscProofs.P.C17',
+                streams=dict(quick=[('awsops', ['-n', 3000]), ('fleetops', ['-n', 96])],
+                             thorough=[('awsops', ['-n', 200000]), ('fleetops', ['-n', 1600])],
+                             search=[('awsops', ['-n', 20000]), ('fleetops', ['-n', 300])]),
+                aspects=['journal', 'outcome'], monitors=['C17'],
+                theorems=['Esc.P.C17_increase', 'Esc.P.C17_reject', 'Esc.P.C17_never_lowers', 'Esc.P.C17_attach_partition', 'Esc.P.C17_batch_limits',
+                          'Esc.P.mkFleetReq_ok'],
+                technique='Lean 4 theorem over the model of aws.NodeGroup.IncreaseSize (all deltas, bounds, fleet sizes, environments; batch constants regenerated from source) + differential correspondence on full AWS call arguments + monitor',
+                level_text='C17_increase: rejected requests make no call; otherwise exactly SetDesiredCapacity(current+d), or in fleet mode at most one CreateFleet for exactly d (min target d, instant, '
+                           'configured template, default on-demand, overrides from the configured types) and never a SetDesiredCapacity; C17_attach_partition: attach calls carry consecutive batches of the acquired ids, '
+                           '<= batchSize each, only the last shorter; C17_batch_limits ties batchSize<=20 / terminateBatchSize<=1000 to the constants extracted from aws.go; C17_never_lowers. '
+                           'Tie: awsops/fleetops streams run the real provider over the simulated AWS; full call arguments compared; predicates monitored on observed journals.',
+                level_note=LEVEL_NOTE),
+    'C18': dict(level='proof', module='EscProofs.P.C18',
+                streams=dict(quick=[('fleetops', ['-n', 160])], thorough=[('fleetops', ['-n', 3200])], search=[('fleetops', ['-n', 400])]),
+                aspects=['journal', 'outcome'], monitors=['C18'],
+                theorems=['Esc.P.C18_no_leak', 'Esc.P.C18_error_reported', 'Esc.P.C18_no_lock', 'Esc.P.attachChunks_flatten', 'Esc.P.termChunks_flatten'],
+                technique='Lean 4 theorem over the model of attachInstancesToASG/terminateOrphanedInstances (permutation argument over batches, all failure points) + differential correspondence with fault injection at every call + monitor',
+                level_text='C18_no_leak: for every fleet size, readiness outcome and failing call, attached ++ submitted-for-termination is a permutation of the acquired ids (never both, never neither), every TerminateInstances call carries '
+                           '<= terminateBatchSize ids, and success is reported only when nothing was terminated; C18_no_lock: a failed increase leaves the scale lock untouched. Tie: fleetops stream (real provider, 1 s ticker) + monitor.',
+                level_note=LEVEL_NOTE),
+    'C19': dict(level='proof', module='EscProofs.P.C19',
+                streams=dict(quick=[('scenario', ['-dir', '@ROOT/corpus/C19']), ('awsops', ['-n', 3000]), ('hist', ['-n', 300, '-scans', 10])],
+                             thorough=[('scenario', ['-dir', '@ROOT/corpus/C19']), ('awsops', ['-n', 200000]), ('hist', ['-n', 15000, '-scans', 12])],
+                             search=[('awsops', ['-n', 20000]), ('hist', ['-n', 1500, '-scans', 12])]),
+                aspects=['journal', 'outcome', 'cached-desired', 'removals'], monitors=['C19'],
+                theorems=['Esc.P.C19_delete', 'Esc.P.C19_count', 'Esc.P.C19_refuse', 'Esc.P.C19_k8s_after_cloud', 'Esc.P.C19_scan_batches',
+                          'Esc.P.C19_not_member_scan', 'Esc.P.C19_not_member_fatal'],
+                technique='Lean 4 theorem over the model of aws.NodeGroup.DeleteNodes and TryDeleteNodes (induction over the node list, every failing index) lifted to the scan journal shape + differential correspondence + monitors',
+                level_text='C19_delete: DeleteNodes refuses without any call when the minimum would be breached, else terminates (with decrement) exactly the instances of a prefix of the given nodes, stopping at the first non-member (not-in-group) '
+                           'or failed call; C19_count <= desired-min; C19_k8s_after_cloud / C19_scan_batches: Node deletions only after the whole batch was accepted, for both batches of a scan; C19_not_member_*: the error ends the scan and makes RunOnce fatal. '
+                           'Tie: awsops (provider level) and hist (controller level) + monitors.',
                 level_note=LEVEL_NOTE),
 }
 
